@@ -301,6 +301,9 @@ class SchedulePool:
     completion order; map() returns the list in task order.
     """
 
+    # worker count, as multiprocessing.Pool exposes it (private there too, but read by chunk-size heuristics)
+    _processes = 2
+
     def __init__(self, n, events):
         self.n, self.events = n, list(events)
         self.completion_order, self.delivery_order, self.used, self.shutdown_calls = [], [], [], []
@@ -694,6 +697,25 @@ def real_pool_binding(chk, tier, d):
                 if r is not None:
                     ooo_tried += 1
                     ooo_seen += bool(r)
+    # a series in which ONE snapshot is not a set of orientations (zero-filled): the call may refuse the series, but a
+    # value it does return for a VALID snapshot is that snapshot's own value ("exactly the per-snapshot values, in
+    # snapshot order") - a worker that fails must not cost its neighbours their results
+    st = make_stack([12] * 14, rng, ragged=False)
+    bad_at = 4
+    exp = expected_indices(st, "triclinic")
+    st = np.array(st, dtype=float)
+    st[bad_at] = 0.0
+    for ncpus in (1, 2):
+        exc, got = call_indices(st, "triclinic", ncpus=ncpus)
+        chk.count(("series-with-a-failing-snapshot", ncpus))
+        if exc == "None":
+            ok = got is not None and got.shape == exp.shape and all(same_bits(got[i:i + 1], exp[i:i + 1]) for i in range(len(exp)) if i != bad_at)
+            if not ok:
+                chk.violation(dict(clause="valid-snapshot-value-lost-beside-a-failing-one", pool="real-ncpus"),
+                              f"misorientation_indices(ncpus={ncpus}) on a series whose snapshot {bad_at} is zero-filled returned {None if got is None else got.tolist()}; the valid snapshots have {exp.tolist()}",
+                              dict(kind="failing-snapshot", ncpus=ncpus, bad_at=bad_at))
+        else:
+            chk.cov.setdefault("failing_snapshot_series", {})[f"ncpus={ncpus}"] = exc[:80]
     chk.cov["real_pool_completion_order"] = dict(observed_runs=ooo_tried, runs_with_out_of_order_completion=ooo_seen,
                                                  note="observation by wrapping diagnostics.misorientation_index; evidence only")
     # externally supplied real pools (skipped by the implementation when Ray is present)
